@@ -123,6 +123,10 @@ def helperOps (tag : Str) (t shellT : Table) : List Str → World × Bool × Nat
     | 'w' :: v =>
       -- `w<N>`: N pattern bytes, written as one pseudo-line naming the pattern (seed from the tag) and its length
       helperOps tag t shellT rest (w.writeTo ((t 1).map (·.obj)) ("#blob:".toList ++ (toString (seedOf tag)).toList ++ [':'] ++ (toString (natOfStr v)).toList), rd, st)
+    | 'c' :: _ =>
+      -- silent copy of stdin to stdout
+      let (w1, ls) := if rd then (w, []) else w.readAll ((t 0).map (·.obj))
+      helperOps tag t shellT rest (ls.foldl (fun w l => w.writeTo ((t 1).map (·.obj)) l) w1, true, st)
     | 'r' :: _ =>
       let (w1, ls) := if rd then (w, []) else w.readAll ((t 0).map (·.obj))
       helperOps tag t shellT rest (w1.note s!"D:{String.ofList tag}:{",".intercalate ((noDiag ls).map hexStr)}", true, st)
